@@ -103,7 +103,7 @@ man = {
                  'kind_free_text': 'Hypothesis 6.168 strategies + rule-based state machines + exhaustive enumeration of small finite domains, 16-process pool, root-cause bucketing, JSON replay files'}],
     'checks': checks,
     'not_applicable': na,
-    'notes': 'All checks: /venv/bin/python vcheck.py <ID> --tier quick|thorough; VERIF_SEED selects the Hypothesis seed. The thorough tier adds targeted search (all properties except C07, C09, C18, C19, where Hypothesis\' optimiser was observed to spin): hypothesis.target() is fed each case\'s closest approach (error / tolerance) to any of its tolerances; the largest approach seen is reported per clause in the evidence (closest_approach_to_a_tolerance). Genuine defects repaired by fix: commits in /repo and listed (status fixed) in known_findings.json; open entries print KNOWN-FINDING lines.',
+    'notes': 'All checks: /venv/bin/python vcheck.py <ID> --tier quick|thorough; VERIF_SEED selects the Hypothesis seed. Every tolerance comparison records its closest approach (error / tolerance), reported per clause in the evidence (closest_approach_to_a_tolerance); with VERIF_TARGET=1 the thorough tier additionally feeds it to hypothesis.target() (opt-in: Hypothesis\' optimiser was observed to spin for some modules, and registered commands must terminate). Genuine defects repaired by fix: commits in /repo and listed (status fixed) in known_findings.json; open entries print KNOWN-FINDING lines.',
 }
 json.dump(man, open(os.path.join(HERE, 'MANIFEST.json'), 'w'), indent=1)
 print('claimed', built, 'not_applicable', [n['property_id'] for n in na])
